@@ -71,9 +71,7 @@ class CNorm:
         if cv is not None:
             return Poly.const(signed(cv) >> k)
         lo, hi = self.bounds(p)
-        if lo < 0:
-            raise NormError("floor division of a possibly negative value %r" % (p,))
-        if hi < 2 ** k:
+        if lo >= 0 and hi < 2 ** k:
             return Poly.const(0)
         # split off the part that is a multiple of 2^k
         s = Poly()
@@ -150,6 +148,8 @@ class CNorm:
                 return Poly.const(0)
             if c == M32 and self.bounds(o)[1] <= M32:
                 return o
+            if c is not None and (c + 1) & c == 0:
+                return self.low((c + 1).bit_length() - 1, o)     # x & (2^k - 1) = x mod 2^k
         return self.atom("and[%r;%r]" % (a, b), min(self.bounds(a)[1], self.bounds(b)[1]))
 
     # ---- field polynomials whose variables may be felt[...] terms
@@ -296,7 +296,7 @@ class RefError(Exception):
 
 def tokenize(s):
     s = s.replace("\\ ", " ").replace("\\;", " ").replace("\\,", " ")
-    toks = re.findall(r"\\[A-Za-z]+|[A-Za-z]_[A-Za-z0-9]|[A-Za-z]|\d+|\^|\{|\}|\(|\)|\+|-|/|<|>|=|,|&|\\\\|\S", s)
+    toks = re.findall(r"\\[A-Za-z]+|[A-Za-z]_[A-Za-z0-9]|[A-Za-z]\d'?|[A-Za-z]|\d+|\^|\{|\}|\(|\)|\+|-|/|<|>|=|,|&|\\\\|\S", s)
     return toks
 
 
@@ -349,7 +349,7 @@ class ExprParser:
 
     def prod(self):
         v = self.power()
-        while self.peek() in ("\\cdot", "/", "\\times"):
+        while self.peek() in ("\\cdot", "/", "\\times", "*"):
             op = self.take()
             w = self.power()
             if op == "/":
@@ -384,13 +384,15 @@ class ExprParser:
             v = self.expr()
             self.take("}")
             return v
+        if t == "-":
+            return Poly() - self.power()
         if t == "\\lfloor":
             v = self.expr_div()
             self.take("\\rfloor")
             return v
         if t is not None and re.match(r"^\d+$", t):
             return Poly.const(int(t))
-        if t is not None and re.match(r"^[a-z](_[a-z0-9])?$", t):
+        if t is not None and re.match(r"^[a-z](_[a-z0-9]|\d'?)?$", t):
             if t not in self.env:
                 raise RefError("unknown name %s" % t)
             return self.env[t]
